@@ -620,6 +620,39 @@ def _check_pm(ctx, idx, reqs, pending):
                                               'got': np.asarray(v, dtype=np.float64).reshape(-1)[:8].tolist(),
                                               'want': want_b.reshape(-1)[:8].tolist()}, fs, mapping='/'.join(sorted({desc[f % M][0]['kind'] for f in fs})),
                         single_lut=any(_is_single(desc[f % M][0]) for f in fs))
+        # batches of ONE channel's frames (for j >= 1 they do not contain frame 1) with selectors valid for THAT channel's mappings
+        # (index, negative index, label, unit; the channels may carry different labels and different NUMBERS of mappings): every
+        # returned frame is the stored frame under the mapping attached to that frame -- no other frame's mappings matter
+        if not is_float and M >= 2:
+            for j in range(M):
+                fs = [f for f in range(F) if f % M == j]
+                if len(fs) > 1 and r.random() < 0.5:
+                    fs = fs[::-1]
+                for k, m in enumerate(desc[j]):
+                    for selector in (k, k - len(desc[j]), m['label'], Code(m['unit'], 'UCUM', m['unit'])):
+                        target = m
+                        if isinstance(selector, Code):
+                            target = next(mm for mm in desc[j] if mm['unit'] == m['unit'])
+                        exps = [_expected_real(planes[f], target) for f in fs]
+                        for spell_idx in (False, True):
+                            keys = [f if spell_idx else f + 1 for f in fs]
+                            s11, v = _try(im.get_frames, keys, as_indices=spell_idx, apply_real_world_transform=True,
+                                          real_world_value_map_selector=selector)
+                            skind = type(selector).__name__ + ('-' if isinstance(selector, int) and selector < 0 else '')
+                            if any(e is None for e in exps):
+                                ctx.case(kind='pm', path=f'{tag}/rwvm-channel-batch-outside', outcome='refused' if s11 != 'ok' else 'values')
+                                if s11 == 'ok':
+                                    obs(f'{tag}/rwvm-channel-batch', False, 'a batch with values outside the mapped range was mapped silently', fs)
+                                continue
+                            want_b = np.stack(exps)
+                            good = s11 == 'ok' and np.asarray(v).shape == want_b.shape and \
+                                bool(np.array_equal(np.asarray(v, dtype=np.float64), want_b))
+                            obs(f'{tag}/rwvm-channel-batch', good,
+                                v if s11 != 'ok' else {'what': 'batch of one channel differs from the mapping attached to its frames',
+                                                       'frames': fs, 'got': np.asarray(v, dtype=np.float64).reshape(-1)[:8].tolist(),
+                                                       'want': want_b.reshape(-1)[:8].tolist()},
+                                fs, mapping=m['kind'], selector=skind, channel=('first' if j == 0 else 'later'),
+                                single_lut=_is_single(target))
         # several channels: every position carries several frames -> no volume (refused; the model refuses as well)
         if cs == 'PATIENT' and M >= 2 and not lazy and d['ts'] in NATIVE and not is_float:
             s6m, volm = _try(im.get_volume, dtype=np.float64, apply_real_world_transform=False, apply_modality_transform=False,
